@@ -153,3 +153,19 @@ pub fn cone_center(rng: &mut Rng) -> (f64, f64) {
   }
   (lon.rem_euclid(TWO_PI), lat.max(-PI / 2.0).min(PI / 2.0))
 }
+
+/// out-of-range NESTED cell numbers: just above the limit, every "base cell" value that could alias a valid one after a
+/// narrowing cast (256 + k, 65536 + k, 2^32 + k ...), high bits set over a valid low part, and random values
+pub fn bad_cell_numbers(rng: &mut Rng, depth: u8) -> Vec<u64> {
+  let nh = n_hash(depth); let s = 2 * depth as u32;
+  let mut v = vec![nh, nh + 1, nh + 5, 2 * nh, u64::MAX, u64::MAX >> 1, u64::MAX - 1, 1u64 << 63];
+  let low = |rng: &mut Rng| if s == 0 { 0 } else { rng.below(1u64 << s) };
+  for &b in [12u64, 13, 15, 16, 17, 31, 32, 64, 127, 128, 255, 256, 257, 260, 267, 268, 511, 512, 523, 1024, 4096 + 3, 65535, 65536, 65536 + 11, (1 << 24) + 5, (1u64 << 32), (1u64 << 32) + 7, (1u64 << 40) + 2].iter() {
+    if b.leading_zeros() > s { v.push((b << s) | low(rng)); v.push(b << s); }
+  }
+  for _ in 0..24 { let h = rng.next(); if h >= nh { v.push(h); } let h = rng.next() >> rng.below(40); if h >= nh { v.push(h); } }
+  // a valid cell with one high bit set
+  for k in [4u32, 5, 8, 9, 16, 31, 32, 33, 59, 62, 63].iter() { let bit = s + *k; if bit < 64 { let h = rng.below(nh) | (1u64 << bit); if h >= nh { v.push(h); } } }
+  v.sort(); v.dedup();
+  v
+}
